@@ -58,7 +58,9 @@ def main() -> int:
     if not patches:
         patches = sorted((VERIF / "mutants" / prop).glob("*.patch"))
         for meta in sorted((VERIF / "seeded").glob("*/meta.json")):
-            if json.loads(meta.read_text()).get("property") == prop:
+            m = json.loads(meta.read_text())
+            # a seeded change that a later repair of /repo made harmless is kept for the record, not audited
+            if m.get("property") == prop and not m.get("neutralised_by_fix"):
                 patches.append(meta.parent / "patch.diff")
     if not patches:
         print("no patches")
